@@ -78,6 +78,17 @@ type world struct {
 	calls []chan struct{} // one per event that is a call; closed when the call returns
 }
 
+// at most two witnesses per class, so that a frequent class cannot crowd out a new one
+var classCount = map[string]int{}
+
+func failOnce(rep *emit.Report, class, what string, in interface{}) {
+	if classCount[class] >= 2 {
+		return
+	}
+	classCount[class]++
+	rep.Fail(class, what, in)
+}
+
 func quiet() log.Logger { return log.New(nil, log.PanicLevel, false) }
 
 func newWorld() *world {
@@ -421,6 +432,7 @@ func coqCase(o outcome) string {
 // Run is the engine entry point.
 func Run(outDir string, seed int64, tier string) error {
 	rep := emit.NewReport("cbstore", seed, tier)
+	classCount = map[string]int{}
 	rng := rand.New(rand.NewSource(seed))
 	scs := witnessScenarios()
 	nrand := 60
@@ -513,7 +525,7 @@ func monitor(rep *emit.Report, o outcome) {
 		if !released && nPutsBefore <= queueN+1 && !hasSameIDAdd(sc.script[:firstBlockedPut]) {
 			class = "C12-put-blocks-early" // blocked although no queue can be full yet
 		}
-		rep.Fail(class, fmt.Sprintf("callbackStore.Put did not return within %v: Put number %d with a consumer that stopped reading (queue of %d per callback, blocking send under the read lock)", Deadline, nPutsBefore, queueN), in)
+		failOnce(rep, class, fmt.Sprintf("callbackStore.Put did not return within %v: Put number %d with a consumer that stopped reading (queue of %d per callback, blocking send under the read lock)", Deadline, nPutsBefore, queueN), in)
 	}
 	// (2) other consumers are served: a reading consumer registered before a returned Put receives it
 	for k, c := range o.res.logs {
@@ -559,13 +571,13 @@ func monitor(rep *emit.Report, o outcome) {
 			}
 		}
 		if !isSubsequence(ws, got) {
-			rep.Fail("C12-reader-not-served", "a consumer that keeps reading did not receive, in order, every beacon whose Put returned while it was registered",
+			failOnce(rep, "C12-reader-not-served", "a consumer that keeps reading did not receive, in order, every beacon whose Put returned while it was registered",
 				map[string]interface{}{"scenario": sc.name, "consumer": k, "want": ws, "got": got})
 		}
 		// FIFO, no repetition
 		for i := 1; i < len(got); i++ {
 			if got[i] <= got[i-1] {
-				rep.Fail("C12-callback-order", "callbacks of one consumer are not in Put order", map[string]interface{}{"scenario": sc.name, "consumer": k, "got": got})
+				failOnce(rep, "C12-callback-order", "callbacks of one consumer are not in Put order", map[string]interface{}{"scenario": sc.name, "consumer": k, "got": got})
 				break
 			}
 		}
